@@ -40,15 +40,15 @@ Theorem c04_inline_sequential : forall p q s,
 Proof. intros p q s. exact (arun_app p q s). Qed.
 Print Assumptions c04_inline_sequential.
 
-(* "After a swarm has been closed ... all of its connections and streams are
-   gone", for EVERY interleaving of Swarm.close with in-flight addConn,
-   addStream, Conn.Close and stream closes (each critical section and each
-   release one step; Close.v): in any state in which the swarm's close has run
-   its critical section and nothing is in flight (no add between its call and
-   its end, every snapshot released), every connection and every stream ever
-   offered has been released. *)
+(* "After a swarm has been closed ... all of its listeners, connections and
+   streams are gone", for EVERY interleaving of Swarm.close with in-flight
+   AddListenAddr, addConn, addStream, Conn.Close, listener and stream closes
+   (each critical section and each release one step; Close.v): in any state in
+   which the swarm's close has run its critical sections and nothing is in flight
+   (no add between its call and its end, every snapshot released), every
+   listener, every connection and every stream ever offered has been released. *)
 Theorem c04_close_all_gone : forall ops,
-  closed (conns (srun sw0 ops)) = true -> quiescent (srun sw0 ops) = true ->
+  swarm_closed (srun sw0 ops) = true -> quiescent (srun sw0 ops) = true ->
   all_gone (srun sw0 ops) = true.
 Proof. exact close_all_gone. Qed.
 Print Assumptions c04_close_all_gone.
@@ -64,10 +64,12 @@ Print Assumptions c04_close_invariant.
 (* a race: conn 0 registered with a stream, the swarm closes, conn 1's add and
    a second stream on conn 0 arrive late; at quiescence everything is released *)
 Example close_race_example :
-  let s := srun sw0 [SOffer 0; SAddCS 0; TOffer 0 0; TAddCS 0 0; SOffer 1; TOffer 0 1;
-                     SCloseCS; SAddCS 1; SCloseRel 0; TAddCS 0 1; TCloseRel 0 0; SAddRel 1; TAddRel 0 1] in
-  closed (conns s) = true /\ quiescent s = true /\ all_gone s = true /\
-  get 1 (items (conns s)) = Some Released /\ get 1 (items (sget 0 (strs s))) = Some Released.
+  let s := srun sw0 [SOffer 0; SAddCS 0; TOffer 0 0; TAddCS 0 0; SOffer 1; TOffer 0 1; LOffer 0; LAddCS 0; LOffer 1;
+                     LCloseCS; SCloseCS; SAddCS 1; SCloseRel 0; TAddCS 0 1; TCloseRel 0 0; SAddRel 1; TAddRel 0 1;
+                     LAddCS 1; LCloseRel 0; LAddRel 1] in
+  swarm_closed s = true /\ quiescent s = true /\ all_gone s = true /\
+  get 1 (items (conns s)) = Some Released /\ get 1 (items (sget 0 (strs s))) = Some Released /\
+  get 1 (items (lsts s)) = Some Released.
 Proof. vm_compute. repeat split; reflexivity. Qed.
 
 (* before the late add has released its item the state is not quiescent, so the
@@ -78,8 +80,13 @@ Example close_race_not_yet :
 Proof. vm_compute. split; reflexivity. Qed.
 
 Example close_monitor_rejects_open_conn :
-  monitor_case [5; 1; 1; 0; 0; 0; 0; 0]%Z <> [].
+  monitor_case [5; 1; 1; 0; 0;  0;  0; 0; 0; 0]%Z <> [].
 Proof. vm_compute. discriminate. Qed.
+
+(* a listener whose AddListenAddr lost the race with Close and was left open *)
+Example close_monitor_rejects_open_listener :
+  monitor_case [5; 0;  1; 0; 0;  0; 0; 0; 0]%Z <> [] /\ monitor_case [5; 0;  1; 0; 1;  0; 0; 0; 0]%Z = [].
+Proof. vm_compute. split; [discriminate|reflexivity]. Qed.
 
 (* every entry has feasible paths, and the tables reject a leaking path: the
    ErrNilPeer return as it was before the repair (no Close before the return) *)
